@@ -621,3 +621,20 @@ def parse_signature(sql, dialect):
         if ids: aliases.append(ids[-1].raw.lower())
         else: aliases.append(a.raw.lower())
     return names, nsel, ncte, sorted(aliases)
+
+
+# ---------------- generic IR rewriting (used by the metamorphic properties C08 / C14)
+def map_ir(node, f):
+    """rebuild the IR bottom-up, replacing every dataclass node x by f(x') where x' has its children already rewritten"""
+    import dataclasses
+    if isinstance(node, tuple):
+        return tuple(map_ir(x, f) for x in node)
+    if dataclasses.is_dataclass(node) and not isinstance(node, type):
+        kw = {fl.name: map_ir(getattr(node, fl.name), f) for fl in dataclasses.fields(node)}
+        return f(type(node)(**kw))
+    return node
+
+
+def qualify(stmt, schema):
+    """every unqualified base table written as schema.name (CTE names and aliases are never touched: they are not T nodes)"""
+    return map_ir(stmt, lambda x: T(schema, x.name, x.alias, x.as_kw) if isinstance(x, T) and x.schema is None else x)
